@@ -192,6 +192,13 @@ func c18RoundTrip(c *Ctx) {
 		{"ReadFrom/chunked-1-7", func(dst *roaring64.Bitmap) (int64, error) {
 			return dst.ReadFrom(&chunkedReader{data: append([]byte(nil), wire...), r: r})
 		}},
+		{"ReadFrom/source-zoo", func(dst *roaring64.Bitmap) (int64, error) {
+			src := sourceZoo(r, wire)
+			defer src.done()
+			c.Step("source: %s", src.name)
+			c.Count("source_" + src.name)
+			return dst.ReadFrom(src.rd)
+		}},
 		{"FromUnsafeBytes", func(dst *roaring64.Bitmap) (int64, error) {
 			buf := append(append([]byte(nil), wire...), tail...)
 			keepAlive64 = append(keepAlive64, buf)
